@@ -21,6 +21,10 @@ pub enum CStep {
     Req(Req),
     RReopen,
     RGet(u16),
+    /// a peer request with boundary-relative numbers (may be refused), to the writer or the replica
+    Peer { to_replica: bool, req: crate::props::c09::AbsReq, uniform: Option<u16> },
+    /// a peer request with concrete numbers (enumerated scenarios)
+    PeerRaw { to_replica: bool, req: crate::props::c09::RawReq },
 }
 
 pub fn cstep_strategy() -> impl Strategy<Value = CStep> {
@@ -35,6 +39,7 @@ pub fn cstep_strategy() -> impl Strategy<Value = CStep> {
         8 => req_strategy().prop_map(CStep::Req),
         2 => Just(CStep::RReopen),
         3 => any::<u16>().prop_map(CStep::RGet),
+        4 => (any::<bool>(), crate::props::c09::absreq_strategy(), prop::option::weighted(0.6, any::<u16>())).prop_map(|(to_replica, req, uniform)| CStep::Peer { to_replica, req, uniform }),
     ]
 }
 
@@ -196,6 +201,38 @@ pub fn run_config<E: Env + Clone>(wenv: &E, renv: &E, cache: CacheCfg, steps: &[
                     drop(std::mem::replace(&mut r, mk(renv.open_with(cache), "reopening the replica")?));
                     TraceItem::RReopen(Ok(()))
                 }
+                CStep::Peer { to_replica, req, uniform } => {
+                    let core = if *to_replica { &mut r } else { &mut w };
+                    let info = core.info();
+                    let rb = |b: (u8, i8)| crate::props::c09::resolve_b(b, info.length, info.byte_length);
+                    // `uniform`: indices drawn uniformly over the (small) tree instead of from the boundary set,
+                    // so that nodes which do not exist yet but whose slot lies inside the tree file are hit
+                    let block = req.block.map(|(i, n)| RequestBlock { index: uniform.map(|u| sel(u, info.length + 2)).unwrap_or_else(|| rb(i)), nodes: rb(n) });
+                    let hash = req.hash.map(|(i, n)| RequestBlock { index: uniform.map(|u| sel(u, 2 * info.length + 3)).unwrap_or_else(|| rb(i)), nodes: rb(n) });
+                    let seek = req.seek.map(|s| RequestSeek { bytes: rb(s) });
+                    let upgrade = req.upgrade.map(|(s, l)| RequestUpgrade { start: rb(s), length: rb(l) });
+                    let reqs = format!("peer {block:?} {hash:?} {seek:?} {upgrade:?} to_replica={to_replica}");
+                    tree_calls += 1;
+                    match block_on(core.create_proof(block, hash, seek, upgrade)) {
+                        Err(e) => TraceItem::Req { req: reqs, proof: None, writer_err: Some(err_kind(&e)), applied: None },
+                        Ok(None) => TraceItem::Req { req: reqs, proof: None, writer_err: None, applied: None },
+                        Ok(Some(p)) => TraceItem::Req { req: reqs, proof: Some(PProof::from_proof(&p)), writer_err: None, applied: None },
+                    }
+                }
+                CStep::PeerRaw { to_replica, req } => {
+                    let core = if *to_replica { &mut r } else { &mut w };
+                    let block = req.block.map(|(index, nodes)| RequestBlock { index, nodes });
+                    let hash = req.hash.map(|(index, nodes)| RequestBlock { index, nodes });
+                    let seek = req.seek.map(|bytes| RequestSeek { bytes });
+                    let upgrade = req.upgrade.map(|(start, length)| RequestUpgrade { start, length });
+                    let reqs = format!("peer {req:?} to_replica={to_replica}");
+                    tree_calls += 1;
+                    match block_on(core.create_proof(block, hash, seek, upgrade)) {
+                        Err(e) => TraceItem::Req { req: reqs, proof: None, writer_err: Some(err_kind(&e)), applied: None },
+                        Ok(None) => TraceItem::Req { req: reqs, proof: None, writer_err: None, applied: None },
+                        Ok(Some(p)) => TraceItem::Req { req: reqs, proof: Some(PProof::from_proof(&p)), writer_err: None, applied: None },
+                    }
+                }
                 CStep::RGet(x) => {
                     let i = sel(*x, r.info().length + 3);
                     tree_calls += 1;
@@ -325,6 +362,42 @@ fn run_case_inner(steps: &[CStep], with_disk: bool, with_cache: bool, local: &mu
     Ok(())
 }
 
+/// Enumerated scenarios "a request that is refused (or answered) must not change later answers":
+/// a writer of L blocks is asked for the hash of every tree index around its tree (existing or not)
+/// resp. for every block index, then grows block by block and is read completely - on every
+/// cache configuration. A replica that upgraded at L is asked the same after the first request.
+pub fn poison_scenarios() -> Vec<Vec<CStep>> {
+    use crate::model::Blk;
+    use crate::props::c09::RawReq;
+    let blk = |i: u64| Blk { len: (i % 3 + 1) as u32, fill: (i as u8).wrapping_mul(9).wrapping_add(1) };
+    let mut out = vec![];
+    for l in 1..=10u64 {
+        for j in 0..(2 * l + 4) {
+            for kind in 0..3u8 {
+                let mut s: Vec<CStep> = (0..l).map(|i| CStep::W(Op::Append(blk(i)))).collect();
+                s.push(CStep::Req(Req { target: Target::None, upgrade: Upg::Full, seek: Seek::None }));
+                let req = match kind {
+                    0 => RawReq { block: None, hash: Some((j, 0)), seek: None, upgrade: None },
+                    1 => RawReq { block: None, hash: Some((j, 1)), seek: None, upgrade: Some((0, l)) },
+                    _ => RawReq { block: Some((j / 2, 0)), hash: None, seek: Some(j), upgrade: None },
+                };
+                s.push(CStep::PeerRaw { to_replica: false, req: req.clone() });
+                s.push(CStep::PeerRaw { to_replica: true, req });
+                for i in l..(2 * l + 3) {
+                    s.push(CStep::W(Op::Append(blk(i))));
+                }
+                s.push(CStep::Req(Req { target: Target::Block(0xffff), upgrade: Upg::Full, seek: Seek::None }));
+                for i in 0..(2 * l + 3) {
+                    s.push(CStep::W(Op::Get(Idx::Near(((i * 65536) / (2 * l + 6) + 1) as u16))));
+                }
+                s.push(CStep::RGet(0xffff));
+                out.push(s);
+            }
+        }
+    }
+    out
+}
+
 pub fn run(ctx: &Ctx) {
     ctx.set_rule(
         "cases = histories of writer ops (append, batch, clear, get, has, info, reopen) and replication steps (requests built from \
@@ -333,7 +406,9 @@ pub fn run(ctx: &Ctx) {
          configuration (off / default / capacity of 3 nodes), and - in the disk stage - the stock disk backend in a scratch directory \
          (this build: sparse hole punching ON; thorough also runs a build without the `sparse` feature). All results of every step \
          (values, Ok/Err class, complete proofs, missing_nodes-derived requests, infos) must be equal and the four files of writer \
-         and replica must be byte-identical when read back through the backend (punched holes read as zeros). Non-trivial = history \
+         and replica must be byte-identical when read back through the backend (punched holes read as zeros). An enumerated stage asks a writer of 1..10 blocks (and its \
+         replica) for every tree/block index around its tree, existing or not, then grows it and reads everything, on all cache \
+         configurations. Non-trivial = history \
          with a clear strictly inside the data followed by a reopen, or with more than 3 tree-reading calls (beyond the tiny cache's \
          capacity).",
     );
@@ -351,6 +426,9 @@ pub fn run(ctx: &Ctx) {
     }
     random_stage(ctx, "memory-backends", ctx.tier.pick(8_000, 150_000), csteps_strategy, |s: &Vec<CStep>, local| run_case(s, false, false, local));
     random_stage(ctx, "cache-configurations", ctx.tier.pick(1_600, 30_000), csteps_strategy, |s: &Vec<CStep>, local| run_case(s, false, true, local));
+    let ps = poison_scenarios();
+    let nps = ps.len() as u64;
+    indexed_stage(ctx, "refused-request-then-growth", nps, |i| ps[i as usize].clone(), |s: &Vec<CStep>, local| run_case(s, false, true, local));
     random_stage(ctx, "disk", ctx.tier.pick(320, 10_000), csteps_strategy, |s: &Vec<CStep>, local| run_case(s, true, false, local));
 }
 
